@@ -40,5 +40,6 @@ Proof. exact Client.LoopProofs.resume_holds_all. Qed.
 
 Theorem c02_resume_needs_no_user_action : forall l r rest, Client.Loop.pending l = r :: rest ->
   Client.Loop.next_request l = Some (r, Client.Loop.mkLoop (Client.Loop.st l) rest (Client.Loop.chan l) (Client.Loop.connected l) (Client.Loop.wire l) (Client.Loop.yielded l)) /\
-  (Client.Loop.connected l = true -> events (Client.Loop.st l) = [] -> Client.Loop.take_enabled l = true).
+  (Client.Loop.connected l = true -> events (Client.Loop.st l) = [] -> inflight (Client.Loop.st l) < max_inflight (Client.Loop.st l) ->
+   collision (Client.Loop.st l) = None -> Client.Loop.take_enabled l = true).
 Proof. exact Client.LoopProofs.pending_first. Qed.
